@@ -102,6 +102,82 @@ theorem publish_protocol_safe (r : Repo) (ps : List Pack) (idx : IndexFile) (ss 
     intro s hs
     exact hss s hs
 
+/-! ### (2b) snapshot-REPLACING commands (`rewrite --forget`, `repair snapshots --delete`): no previously existing snapshot
+is lost — at every crash point every snapshot that existed before is present as itself or as its rewritten successor -/
+
+theorem hasSnap_after_write (s : Snap) (ops : List Op) (r : Repo) (hm : Op.writeSnap s ∈ ops)
+    (hne : ∀ o ∈ ops, o ≠ .removeSnap s.id) : hasSnap (applyAll r ops) s.id = true := by
+  obtain ⟨a, b, rfl⟩ := List.append_of_mem hm
+  rw [applyAll_append]
+  simp only [applyAll, List.foldl_cons]
+  exact hasSnap_applyAll s.id b _ (fun o ho => hne o (by simp [ho])) (hasSnap_writeSnap _ s)
+
+/-- **No snapshot is lost by a replacing command.**  `writes` = any pack / index / key / config / snapshot writes and
+pack / index removals (everything but snapshot removals), then the new snapshot files `pairs.map (·.2)`, then the removal
+of the snapshots `pairs.map (·.1)` they replace (`Repo.replaceOps`; `process_snapshots` in `commands/rewrite.rs`, the tail of
+`repair_snapshots`).  A changed snapshot has another id than every removed one (`hfresh`: ids are content hashes).  Then after
+EVERY prefix of the operations every snapshot `id` that existed before is still stored or its successor is — for all
+repositories, all writes, any number of replaced snapshots. -/
+theorem replace_protocol_loses_no_snapshot (r : Repo) (writes : List Op) (pairs : List (Nat × Snap))
+    (hw : ∀ o ∈ writes, o.isRemoveSnap = false) (hfresh : ∀ p ∈ pairs, ∀ q ∈ pairs, p.2.id ≠ q.1)
+    (id : Nat) (h : hasSnap r id = true) :
+    ∀ r' ∈ prefixStates r (replaceOps writes pairs), kept r' (pairs.map (fun p => (p.1, p.2.id))) id = true := by
+  intro r' hr'
+  have hpub : ∀ j, ∀ o ∈ writes ++ pairs.map (fun p => Op.writeSnap p.2), o ≠ .removeSnap j := by
+    intro j o ho e
+    rw [List.mem_append] at ho
+    rcases ho with ho | ho
+    · have := hw o ho; rw [e] at this; simp [Op.isRemoveSnap] at this
+    · rw [List.mem_map] at ho; obtain ⟨p, _, hp⟩ := ho; rw [e] at hp; cases hp
+  unfold replaceOps at hr'
+  rw [prefixStates_append] at hr'
+  unfold kept
+  rw [Bool.or_eq_true]
+  rcases hr' with hr' | hr'
+  · exact Or.inl (hasSnap_prefixStates id _ r (hpub id) h r' hr')
+  · by_cases hin : ∃ p ∈ pairs, p.1 = id
+    · obtain ⟨p, hp, hpid⟩ := hin
+      right
+      rw [List.any_eq_true]
+      refine ⟨(p.1, p.2.id), List.mem_map.2 ⟨p, hp, rfl⟩, ?_⟩
+      simp only [hpid, beq_self_eq_true, Bool.true_and]
+      refine hasSnap_prefixStates p.2.id _ _ ?_ ?_ r' hr'
+      · intro o ho e
+        rw [List.mem_map] at ho
+        obtain ⟨q, hq, hqo⟩ := ho
+        rw [e] at hqo
+        injection hqo with hqo
+        exact hfresh p hp q hq hqo.symm
+      · exact hasSnap_after_write p.2 _ r (List.mem_append_right _ (List.mem_map.2 ⟨p, hp, rfl⟩)) (hpub p.2.id)
+    · left
+      refine hasSnap_prefixStates id _ _ ?_ (hasSnap_applyAll id _ r (hpub id) h) r' hr'
+      intro o ho e
+      rw [List.mem_map] at ho
+      obtain ⟨q, hq, hqo⟩ := ho
+      rw [e] at hqo
+      injection hqo with hqo
+      exact hin ⟨q, hq, hqo⟩
+
+/-- … in the form the driver's loss monitor decides: `firstLost` finds no prefix that has lost a snapshot of the state before. -/
+theorem replace_protocol_monitor_clean (r : Repo) (writes : List Op) (pairs : List (Nat × Snap))
+    (hw : ∀ o ∈ writes, o.isRemoveSnap = false) (hfresh : ∀ p ∈ pairs, ∀ q ∈ pairs, p.2.id ≠ q.1) :
+    firstLost (pairs.map (fun p => (p.1, p.2.id))) (r.snaps.map (·.id)) r (replaceOps writes pairs) = none := by
+  rw [firstLost_none]
+  intro r' hr'
+  unfold noneLost
+  rw [List.all_eq_true]
+  intro id hid
+  refine replace_protocol_loses_no_snapshot r writes pairs hw hfresh id ?_ r' hr'
+  rw [hasSnap_iff]
+  rw [List.mem_map] at hid
+  obtain ⟨s, hs, rfl⟩ := hid
+  exact ⟨s, hs, rfl⟩
+
+/-- the run-time loss monitor of the driver decides exactly "no prefix state has lost one of `olds`". -/
+theorem loss_monitor_sound (succ : List (Nat × Nat)) (olds : List Nat) (r : Repo) (ops : List Op) :
+    firstLost succ olds r ops = none ↔ ∀ r' ∈ prefixStates r ops, noneLost r' succ olds = true :=
+  firstLost_none succ olds r ops
+
 /-- **forget**: removing snapshot files is safe at every prefix. -/
 theorem forget_protocol_safe (r : Repo) (ids : List Nat) (h : consistent r = true) :
     ∀ r' ∈ prefixStates r (ids.map Op.removeSnap), consistent r' = true :=
@@ -373,6 +449,16 @@ theorem prune_flag_table :
     let idx : IndexFile := { id := 2, packs := [{ id := 1, blobs := [wKey] }] }
     [(false, false), (true, false), (false, true), (true, true)].map
       (fun (i, e) => firstBad wRepo (pruneOpsOpt ⟨i, e⟩ [] idx [1] [])) = [none, none, none, some 1] := by decide
+
+/-- **removing the originals before saving the rewritten snapshots** (the order `rewrite --forget` must not have): every
+prefix is *consistent* (`firstBad = none`: there is simply no snapshot left) but the prefix after the removal has lost
+snapshot 1 — the loss monitor, not the consistency monitor, sees it; in the order of the code nothing is lost. -/
+theorem remove_before_save_loses_snapshot :
+    let new : Snap := { id := 2, needs := [wKey] }
+    firstBad wRepo [.removeSnap 1, .writeSnap new] = none ∧
+    firstLost [(1, 2)] [1] wRepo [.removeSnap 1, .writeSnap new] = some 1 ∧
+    firstLost [(1, 2)] [1] wRepo (replaceOps [] [(1, new)]) = none ∧
+    mustKeep wRepo [(1, 2)] [.removeSnap 1, .writeSnap new] = [1] ∧ mustKeep wRepo [] [.removeSnap 1] = [] := by decide
 
 /-- indexing a pack before writing it is visible as an unsound index at the prefix in between. -/
 theorem index_before_pack_unsafe :
